@@ -349,5 +349,27 @@ def _w35() -> bool:
     return a != b
 
 
-KNOWN_CLASSES = {"order_across_counter_wrap": _d18, "json_output_with_placeholders": _d35}
-WITNESSES = {"D18": _w18, "D35": _w35}
+def _d53(v: dict) -> bool:
+    """an SDict obtained before a reset of the counter is written (appended) onto a commented file after it"""
+    return False          # no generated history writes an SDict returned by an earlier read; the witness is replayed on every run
+
+
+def _w53() -> bool:
+    from dictIO import DictReader, DictWriter, SDict
+    from dictIO.utils.counter import BorgCounter
+
+    def run(reset):
+        with impl.scratch() as td:
+            (td / "A").write_text("// comment of A\na 1;\n")
+            (td / "T").write_text("// comment of T\nt 2;\n")
+            BorgCounter.reset()
+            d = DictReader.read(td / "A")
+            if reset:
+                SDict().reset()
+            DictWriter.write(d, td / "T", mode="a")
+            return (td / "T").read_text()
+    return run(False) != run(True)
+
+
+KNOWN_CLASSES = {"sdict_from_before_a_reset": _d53, "order_across_counter_wrap": _d18, "json_output_with_placeholders": _d35}
+WITNESSES = {"D53": _w53, "D18": _w18, "D35": _w35}
